@@ -1,6 +1,6 @@
 """C04 - Documented markup yields the documented element tree."""
 import random
-from harness import core, impl, model, gen, xmlsx, stages, absdoc
+from harness import core, impl, model, gen, xmlsx, stages, absdoc, eidlib
 from harness.absdoc import E
 
 TRANSLATORS = ['parser', 'grammar', 'types', 'xml', 'libs', 'xsl', 'readme']
@@ -20,7 +20,9 @@ TRUSTED_BASE = [
     'hand models of types.py/xml.py tied to the code by the e2e and dict stages; extraction + driver',
 ]
 ASSUMPTIONS = ['the whole-document statement is decided by sampling abstract documents, not proved; the theorems cover the keyword/synonym tables, '
-               'keyword order, the element a keyword becomes (every parse tree) and the intro/content/hcontainer/wrapUp grouping (every dict node)',
+               'keyword order, the element a keyword becomes (every parse tree), the intro/content/hcontainer/wrapUp grouping (every dict node) and, end to end, '
+               'the hierarchical element with num, heading and one plain line (premises: num without blank/backslash and not starting with a dash; heading and line plain text '
+               'without backslash or doubled marker, not blank at their ends; the line starts with none of the block keywords)',
                'README.md documents no debate vocabulary beyond naming the document types; the debate part of the specification follows the grammar comments and the AKN schema',
                'the derived by attribute of speech groups is not prescribed by any documentation and is ignored']
 
@@ -122,9 +124,42 @@ def search(ctx, budget):
         ctx.evaluations += 1; ctx.count('keyword_docs_' + r[0])
         if r[0] == 'bad':
             ctx.failures.append(({'stage': 'keyword', 'index': i, 'root': kd[i][0], 'text': kd[i][1]}, r[1]))
+    hj = hier_element_cases(ctx, ctx.n(170, 5000) * budget)
+    for j, r in zip(hj, impl.pmap(_he_oracle, hj, chunk=16)):
+        ctx.evaluations += 1; ctx.count('hier_element_theorem_' + r[0])
+        if r[0] == 'bad':
+            ctx.failures.append(({'stage': 'hier-element', 'args': list(j), 'text': r[2]}, r[1]))
     d = make(*js[0])
     ctx.sample({'seed': js[0][0], 'root': js[0][1], 'text': (d[0] if d else '')[:600]})
 
+
+# ---- instances of C04_hier_element_converts, run on the implementation ----
+HE_NUMS = ['1', '1.', '(a)', '3A', '12bis', 'IV.', '1.2.3', '(iii)', 'A-1', '10/2', '²', 'é1', '1:2', '[b]', '7*', '1,5', '99.', 'ix)']
+HE_WORDS = ['the', 'Minister', 'may', 'delegate', '*', '/', '_', '{x}', '2/3', '50%', 'a-b', '(a)', 'été', 'אב', "it's", 'of_them', 'x.', 'section', 'part', '}', '{', 'P1', 'Powers', '-', '1.']
+def hier_element_cases(ctx, n):
+    out = [(stages.URIS[0], 'chp_2', 'SUBSEC', '(3A)', 'Powers * of the {Minister}', 'may / delegate 50% of_them', 3)]
+    kws = sorted(absdoc.HIER)
+    for i in range(n):
+        kw = kws[i % len(kws)]
+        h = ' '.join(ctx.rng.choice(HE_WORDS) for _ in range(ctx.rng.randint(1, 5)))
+        t = ' '.join(ctx.rng.choice(HE_WORDS[:-3] + ['words', 'follow']) for _ in range(ctx.rng.randint(1, 7)))
+        if h.startswith('-') or t[0].isupper() and t.split(' ')[0] in ('P', 'P1'):
+            h = 'a ' + h
+        out.append((ctx.rng.choice(stages.URIS), ctx.rng.choice(stages.PREFIXES), kw, ctx.rng.choice(HE_NUMS), h, t, ctx.rng.randint(1, 6)))
+    return out
+
+def _he_oracle(args):
+    uri, prefix, kw, n, h, t, k = args
+    text = '%s %s - %s\n%s%s\n' % (kw, n, h, ' ' * k, t)
+    tag = absdoc.HIER[kw]
+    G = eidlib.tables()
+    cand = (prefix + '__' if prefix else '') + G.aliases.get(tag, tag) + '_' + eidlib.clean_num_ref(n)
+    want = ['E', tag, [['eId', cand]], [['E', 'num', [], [['T', n]]], ['E', 'heading', [], [['T', h]]],
+                                        ['E', 'content', [], [['E', 'p', [['eId', cand + '__p_1']], [['T', t]]]]]]]
+    got = impl.e2e_sx((uri, 'hier_element', prefix, text))
+    if got != want:
+        return ('bad', 'C04_hier_element_converts predicts %r, the implementation gives %r' % (want, got), text)
+    return ('ok', None, text)
 
 def probe_disagreement(ctx, stage, case):
     pass
@@ -139,6 +174,8 @@ def replay(obj):
         r = _oracle((case['seed'], case['root'], case['depth'])); print(r[:2]); return 1 if r[0] == 'bad' else 0
     if case.get('stage') == 'keyword':
         r = _kw_oracle(case['index']); print(r[:2]); return 1 if r[0] == 'bad' else 0
+    if case.get('stage') == 'hier-element':
+        r = _he_oracle(tuple(case['args'])); print(r[:2]); return 1 if r[0] == 'bad' else 0
     return 0 if stages.replay_stage(case) else 1
 
 LEVEL_TEXT = ('Partial. Proved, on the tables regenerated from README.md, akn.peg, types.py and akn_text.xsl: every keyword, synonym, attachment keyword and '
@@ -146,7 +183,12 @@ LEVEL_TEXT = ('Partial. Proved, on the tables regenerated from README.md, akn.pe
               'alternative shadows a longer one; for every parse tree the element a hierarchical or speech keyword becomes is the synonym table\'s answer '
               '(C04_hier_keyword_element, C04_speech_keyword_element); for every dict node of a hierarchical element the XML is name+attributes, '
               'num/heading/subheading, then the children converted in one ordered pass and grouped as content or intro/hcontainer/wrapUp exactly as '
-              'wrap_spec says (C04_hier_item_shape, C04_wrappers_lose_nothing). The whole-document statement (text -> prescribed tree) is decided by the '
+              'wrap_spec says (C04_hier_item_shape, C04_wrappers_lose_nothing). Text to tree is a theorem for the basic hierarchical element: for each of the 34 keywords, every num '
+              'without blank or backslash, every heading and content line of plain or escaped characters, in any context, rule hier_element of the regenerated grammar and to_dict '
+              'give the hier node with the keyword\'s element, that num, that heading and one paragraph (C04_hier_element_yields_hier_node); and through the WHOLE pipeline model - '
+              'pre_parse, grammar, to_dict, XML builder, post-processing, eIds - `KEYWORD num - heading` + an indented plain line converts, for every known URI and every prefix, to '
+              '<tag eId=prefix__abbr_num><num/><heading/><content><p eId=...__p_1/></content></tag> (C04_hier_element_converts; instances run on the implementation on every run). '
+              'For all other shapes the whole-document statement (text -> prescribed tree) is decided by the '
               'independent specification generator absdoc.py on sampled abstract documents x seven roots, plus every keyword exhaustively, on the '
               'implementation; the model is tied to the code on the same documents by the e2e and dict stages.')
 LEVEL_NOTE = 'Trusted: Coq kernel (vm_compute table checks); translators; absdoc.py as the specification; hand models tied by sampling; extraction+driver.'
